@@ -289,6 +289,7 @@ class Verdict:
             "wall_s": round(time.time() - T0, 2),
             "violations": len(self.violations),
             "known_findings_seen": {c: n for c, (n, _) in self.known.items()},
+            "violation_classes": {c: sum(1 for x in self.violations if x[0] == c) for c in sorted(set(x[0] for x in self.violations))},
             "notes": self.notes,
         }
         with open(os.path.join(VERIF, "evidence", self.prop + ".json"), "w") as fh:
